@@ -847,6 +847,7 @@ func init() {
 			{"K2", "scratch == fresh (typestate of the scratch slot, path exploration with verdict refinement): whenever the loop goes on to the next element with the scratch slot in use it has been Reset(); more-bytes returns never reset the in-progress slot; resets before the sub-parser call only under scratch.Parsed(); success returns either reset or rely on that lazy entry reset", ruleK2},
 			{"K4", "every slot of the caller's array is used: in each of the five slot-selecting parsers the element &array[N] is chosen on an edge whose only fact is exactly N - len(array) + 1 <= 0 over the same counter and array, so stored elements = min(N, capacity)", ruleK4},
 			{"K5", "no use after recycle: in the slot-selecting parsers, after a Reset() of the scratch slot (or of the chosen slot) no instruction of the same iteration reads, or passes on, memory through the slot pointer; a read placed after the recycling sees the element only when it was stored in the caller's array", ruleK5},
+			{"K6", "capacity zero is a capacity: in the Init methods the caller's array is told from no array by a nil test only (attached on the non-nil edge, private default on the nil edge); no branch of Init depends on len() or cap() of the array parameter, so an empty non-nil array is not replaced by the private default", ruleK6},
 			{"K3", "counters and classification are unconditional top-level statements of the completion clause; HNo advances exactly on first entry of a header", ruleK3},
 		},
 		Assumptions: []string{"values read through the chosen slot pointer are capacity-independent because scratch and fresh slots are indistinguishable (K2 + C12-Z2)"},
@@ -1028,4 +1029,116 @@ func ruleK3path(c *Ctx, rule string, only string) {
 			c.check(!miss && n > 0, rule, fk+":must-pass:"+ev, pos, fmt.Sprintf("every one of the %d completion paths (verdict in the completion set) passes %s before the next element / the return", n, ev))
 		}
 	}
+}
+
+// K6: capacity zero is a capacity. In the Init methods the caller's array (a slice parameter) is told from "no
+// array" by a nil test only: the parameter is attached on the non-nil edge, the private default on the nil edge,
+// and no branch of Init looks at len() or cap() of the parameter - an empty, non-nil array stays the caller's
+// array (nothing stored, everything counted, More() set), it is not replaced by the private default.
+func ruleK6(c *Ctx) {
+	m := 0
+	for _, k := range c.funcKeys() {
+		fn := c.SFuncs[k]
+		if fn == nil || !strings.HasSuffix(k, ".Init") {
+			continue
+		}
+		for _, prm := range fn.Params {
+			if _, isSlice := prm.Type().Underlying().(*types.Slice); !isSlice {
+				continue
+			}
+			// no len()/cap() of the parameter reaches a branch condition
+			for _, r := range *prm.Referrers() {
+				call, ok := r.(*ssa.Call)
+				if !ok {
+					continue
+				}
+				bi, ok := call.Call.Value.(*ssa.Builtin)
+				if !ok || (bi.Name() != "len" && bi.Name() != "cap") {
+					continue
+				}
+				seen := map[ssa.Value]bool{}
+				var feedsIf func(v ssa.Value, d int) bool
+				feedsIf = func(v ssa.Value, d int) bool {
+					if d > 6 || seen[v] || v.Referrers() == nil {
+						return false
+					}
+					seen[v] = true
+					for _, u := range *v.Referrers() {
+						switch x := u.(type) {
+						case *ssa.If:
+							return true
+						case *ssa.BinOp:
+							if feedsIf(x, d+1) {
+								return true
+							}
+						case *ssa.UnOp:
+							if feedsIf(x, d+1) {
+								return true
+							}
+						case *ssa.Convert:
+							if feedsIf(x, d+1) {
+								return true
+							}
+						case *ssa.Phi:
+							if feedsIf(x, d+1) {
+								return true
+							}
+						}
+					}
+					return false
+				}
+				c.check(!feedsIf(call, 0), "K6", k+":no-length-test:"+prm.Name(), call.Pos(), "Init does not branch on "+bi.Name()+"() of the caller's array: an empty non-nil array is still the caller's array")
+			}
+		}
+		for _, b := range fn.Blocks {
+			iff, ok := b.Instrs[len(b.Instrs)-1].(*ssa.If)
+			if !ok {
+				continue
+			}
+			bo, ok := iff.Cond.(*ssa.BinOp)
+			if !ok || (bo.Op != token.NEQ && bo.Op != token.EQL) {
+				continue
+			}
+			prm, ok := bo.X.(*ssa.Parameter)
+			kc, isC := bo.Y.(*ssa.Const)
+			if !ok || !isC || kc.Value != nil {
+				continue
+			}
+			if _, isSlice := prm.Type().Underlying().(*types.Slice); !isSlice {
+				continue
+			}
+			nn, nl := b.Succs[0], b.Succs[1]
+			if bo.Op == token.EQL {
+				nn, nl = nl, nn
+			}
+			uses := func(root *ssa.BasicBlock) bool {
+				if len(root.Preds) != 1 {
+					return false
+				}
+				for _, b2 := range fn.Blocks {
+					if !root.Dominates(b2) {
+						continue
+					}
+					for _, ins := range b2.Instrs {
+						switch x := ins.(type) {
+						case *ssa.Store:
+							if x.Val == ssa.Value(prm) {
+								return true
+							}
+						case *ssa.Call:
+							for _, a := range x.Call.Args {
+								if a == ssa.Value(prm) {
+									return true
+								}
+							}
+						}
+					}
+				}
+				return false
+			}
+			m++
+			c.check(uses(nn) && !uses(nl), "K6", k+":caller-array:"+prm.Name(), iff.Cond.Pos(), "the caller's array is attached on the non-nil edge of a nil test, the private default on the nil edge")
+		}
+	}
+	c.check(m >= 2, "K6", "nil-tests", token.NoPos, fmt.Sprintf("%d nil tests of caller-supplied arrays in Init methods (frozen minimum 2)", m))
 }
